@@ -1020,6 +1020,10 @@ def execute(sempler, run_seed, ops, pristine_budget=4):
     if pristine_budget is not None and len(keys) > pristine_budget:
         keys = w.streams["pristine"].sample(keys, pristine_budget)
     obl = [st.oblig[k] for k in keys]
+    po = [r for r in ops if r.get("op") == "np.printoptions"][:1]
+    if po:
+        # the reference world prints like the caller's world (str() of a distribution is one of the operations)
+        obl = [dict(o, ops=po + o["ops"]) for o in obl]
     if st.errstate:
         # the reference world runs under the same error state of the caller
         # ... and, for the same operations, also under numpy's default error state: where both worlds return a
@@ -1039,6 +1043,9 @@ def pristine_eval(sempler, ops):
         w.step = i
         rec = resolve_models(w, st, rec)
         try:
+            if rec["op"] in SHARED_OPS and rec["op"] not in HANDLERS:
+                SHARED_OPS[rec["op"]](w, rec)
+                continue
             od, out = HANDLERS[rec["op"]](w, st, rec)
         except Skip:
             return ("skip", None)      # the reference model could not be rebuilt from the literal copy: no verdict
@@ -1581,6 +1588,7 @@ def generate(run_seed, deep=False):
     G.bitgen_variation(st["bitgen"], ops)
     np_star_faults(st["np_star"], ops)
     giant_samples(st["giant"], gs, ops, nclients)
+    G.printoptions_variation(st["printoptions"], ops, at_start_only=True)
     f = st["errstate"]
     for rec in ops[:1]:
         r, state = f.random(), f.choice([{"under": "raise"}, {"all": "raise"}, {"under": "raise", "divide": "ignore"}])
